@@ -230,32 +230,32 @@ func hasPrefix(p, q []int) bool { // q is a prefix of p
 
 // Ctx translates the values of one function (possibly an inlined callee) into terms.
 type Ctx struct {
-	p     *Prog
-	fn    *ssa.Function
-	fi    *funcInfo
-	scope *ssa.Function       // outermost function: mutation scope for load stability
-	bind  map[ssa.Value]*Term // parameters / free variables of an inlined callee
-	site  string              // identity prefix (call-site chain) for inlined contexts
-	depth int
-	maxD  int
-	memo  map[ssa.Value]*Term
-	fmemo map[ssa.Value]*Formula
-	pc    map[int]*Formula
-	memIn map[string][]*Term
-	inprg map[string]bool
-	noInl map[*ssa.Function]bool
+	p      *Prog
+	fn     *ssa.Function
+	fi     *funcInfo
+	scope  *ssa.Function       // outermost function: mutation scope for load stability
+	bind   map[ssa.Value]*Term // parameters / free variables of an inlined callee
+	site   string              // identity prefix (call-site chain) for inlined contexts
+	depth  int
+	maxD   int
+	memo   map[ssa.Value]*Term
+	fmemo  map[ssa.Value]*Formula
+	pc     map[int]*Formula
+	memDef map[string][]memDefn
+	inprg  map[string]bool
+	noInl  map[*ssa.Function]bool
 }
 
 var inlineDepth = 3
 
 func (p *Prog) NewCtx(fn *ssa.Function) *Ctx {
 	return &Ctx{p: p, fn: fn, fi: infoOf(fn), scope: fn, bind: map[ssa.Value]*Term{}, maxD: inlineDepth,
-		memo: map[ssa.Value]*Term{}, fmemo: map[ssa.Value]*Formula{}, pc: map[int]*Formula{}, memIn: map[string][]*Term{}, inprg: map[string]bool{}, noInl: map[*ssa.Function]bool{}}
+		memo: map[ssa.Value]*Term{}, fmemo: map[ssa.Value]*Formula{}, pc: map[int]*Formula{}, memDef: map[string][]memDefn{}, inprg: map[string]bool{}, noInl: map[*ssa.Function]bool{}}
 }
 
 func (c *Ctx) child(callee *ssa.Function, call ssa.Instruction, args []*Term) *Ctx {
 	ch := &Ctx{p: c.p, fn: callee, fi: infoOf(callee), scope: c.scope, bind: map[ssa.Value]*Term{}, depth: c.depth + 1, maxD: c.maxD,
-		site: c.instrID(call), memo: map[ssa.Value]*Term{}, fmemo: map[ssa.Value]*Formula{}, pc: map[int]*Formula{}, memIn: map[string][]*Term{}, inprg: map[string]bool{}, noInl: c.noInl}
+		site: c.instrID(call), memo: map[ssa.Value]*Term{}, fmemo: map[ssa.Value]*Formula{}, pc: map[int]*Formula{}, memDef: map[string][]memDefn{}, inprg: map[string]bool{}, noInl: c.noInl}
 	for i, prm := range callee.Params {
 		if i < len(args) {
 			ch.bind[prm] = args[i]
@@ -371,7 +371,11 @@ func (c *Ctx) term(v ssa.Value) *Term {
 	case *ssa.FieldAddr:
 		// address term; only meaningful under a load, but may be passed as a pointer (&x.f)
 		f := derefStruct(x.X.Type()).Field(x.Field)
-		return &Term{Kind: "unop", Name: "&", Args: []*Term{{Kind: "field", Name: f.Name(), Obj: f, Args: []*Term{c.Term(x.X)}, Typ: f.Type()}}}
+		fbase := c.Term(x.X)
+		if fbase.Kind == "unop" && fbase.Name == "&" {
+			fbase = fbase.Args[0]
+		}
+		return &Term{Kind: "unop", Name: "&", Args: []*Term{{Kind: "field", Name: f.Name(), Obj: f, Args: []*Term{fbase}, Typ: f.Type()}}}
 	case *ssa.Field:
 		st := x.X.Type().Underlying().(*types.Struct)
 		f := st.Field(x.Field)
@@ -631,65 +635,85 @@ func pathKey(a *ssa.Alloc, path []int) string {
 	return fmt.Sprintf("%p/%v", a, path)
 }
 
-// memAtEntry: value of (alloc, path) on entry to block b, by forward dataflow over the
-// lattice ⊥ (nil) < term < ⊤ (a block-specific memphi term).
+// memAtEntry: value of (alloc, path) on entry to block b, by forward dataflow over reaching
+// definitions (store instructions / the alloc itself); ⊥ = none yet, ⊤ = several.
 func (c *Ctx) memAtEntry(a *ssa.Alloc, path []int, b *ssa.BasicBlock, typ types.Type) *Term {
 	k := pathKey(a, path)
-	if in, ok := c.memIn[k]; ok {
-		if t := in[b.Index]; t != nil {
-			return t
-		}
-		return zeroTerm(typ)
-	}
-	if c.inprg[k] {
-		return &Term{Kind: "memphi", Name: fmt.Sprintf("%s%v@cyc%d", a.Comment, path, b.Index), ID: c.site + funcID(c.fn), Typ: typ}
-	}
-	c.inprg[k] = true
-	n := len(c.fn.Blocks)
-	last := make([]*Term, n)
-	for _, blk := range c.fn.Blocks {
-		for i := len(blk.Instrs) - 1; i >= 0; i-- {
-			if t := c.defAt(blk.Instrs[i], a, path, typ); t != nil {
-				last[blk.Index] = t
-				break
-			}
-		}
-	}
-	in := make([]*Term, n)
-	top := func(i int) *Term {
-		return &Term{Kind: "memphi", Name: fmt.Sprintf("%s%v@%d", a.Comment, path, i), ID: c.site + funcID(c.fn), Typ: typ}
-	}
-	for changed := true; changed; {
-		changed = false
+	in, ok := c.memDef[k]
+	if !ok {
+		n := len(c.fn.Blocks)
+		last := make([]memDefn, n)
 		for _, blk := range c.fn.Blocks {
-			var res *Term
-			for _, p := range blk.Preds {
-				out := last[p.Index]
-				if out == nil {
-					out = in[p.Index]
-				}
-				if out == nil {
-					continue
-				}
-				if res == nil {
-					res = out
-				} else if res.Key() != out.Key() {
-					res = top(blk.Index)
+			for i := len(blk.Instrs) - 1; i >= 0; i-- {
+				if c.isDef(blk.Instrs[i], a, path) {
+					last[blk.Index] = memDefn{in: blk.Instrs[i]}
 					break
 				}
 			}
-			if res != nil && (in[blk.Index] == nil || in[blk.Index].Key() != res.Key()) {
-				in[blk.Index] = res
-				changed = true
+		}
+		in = make([]memDefn, n)
+		for changed := true; changed; {
+			changed = false
+			for _, blk := range c.fn.Blocks {
+				if in[blk.Index].top {
+					continue
+				}
+				var res memDefn
+				for _, p := range blk.Preds {
+					out := last[p.Index]
+					if out.empty() {
+						out = in[p.Index]
+					}
+					if out.empty() {
+						continue
+					}
+					if res.empty() {
+						res = out
+					} else if res != out {
+						res = memDefn{top: true, blk: blk.Index}
+						break
+					}
+				}
+				if !res.empty() && in[blk.Index] != res {
+					in[blk.Index] = res
+					changed = true
+				}
 			}
 		}
+		c.memDef[k] = in
 	}
-	delete(c.inprg, k)
-	c.memIn[k] = in
-	if t := in[b.Index]; t != nil {
+	d := in[b.Index]
+	switch {
+	case d.empty():
+		return zeroTerm(typ)
+	case d.top:
+		return &Term{Kind: "memphi", Name: fmt.Sprintf("%s%v@%d", a.Comment, path, d.blk), ID: c.site + funcID(c.fn), Typ: typ}
+	}
+	if t := c.defAt(d.in, a, path, typ); t != nil {
 		return t
 	}
 	return zeroTerm(typ)
+}
+
+// memDefn is an element of the reaching-definition lattice.
+type memDefn struct {
+	in  ssa.Instruction
+	top bool
+	blk int
+}
+
+func (d memDefn) empty() bool { return d.in == nil && !d.top }
+
+// isDef: does instruction in define (alloc, path)?
+func (c *Ctx) isDef(in ssa.Instruction, a *ssa.Alloc, path []int) bool {
+	switch x := in.(type) {
+	case *ssa.Store:
+		a2, p2, ok := c.fi.allocPath(x.Addr)
+		return ok && a2 == a && hasPrefix(path, p2)
+	case *ssa.Alloc:
+		return x == a
+	}
+	return false
 }
 
 // ---- calls -------------------------------------------------------------------------------
